@@ -8,20 +8,29 @@
 (* aliasing between calls is the realistic slip).                          *)
 (***************************************************************************)
 EXTENDS Poseidon, Json, FiniteSets
-CONSTANTS Inputs1, Inputs2, MaxCalls   \* candidate singleton inputs, candidate pairs (as <<a,b>>), session length
+CONSTANTS Inputs1, Inputs2, MaxCalls,  \* candidate singleton inputs, candidate pairs (as <<a,b>>), session length
+          Chain                        \* TRUE: a call may also take the OUTPUT WIRE of an earlier call as an input (a digest fed into
+                                       \* the next hash and used again, as along a Merkle path or an empty-subtree chain)
 VARIABLES st, round, calls, cur
 vars == <<st, round, calls, cur>>
 
 Init == st = <<>> /\ round = 0 /\ calls = <<>> /\ cur = <<>>
+\* an input is either a value or a reference <<"ref", k>> to the output of call k
+Val(x) == IF Chain /\ Len(x) = 2 /\ x[1] = "ref" THEN calls[x[2]].out ELSE x[1]
+Refs == IF Chain THEN {<<"ref", k>> : k \in 1..Len(calls)} ELSE {}
+Start(c, state) == cur' = c /\ st' = state
 Begin == /\ round = 0 /\ Len(calls) < MaxCalls
-         /\ \E inp \in ({<<a>> : a \in Inputs1} \cup Inputs2) :
-               /\ cur' = inp /\ st' = <<Zero>> \o inp
+         /\ \/ \E inp \in ({<<a>> : a \in Inputs1} \cup Inputs2) : Start([i \in 1..Len(inp) |-> <<inp[i]>>], <<Zero>> \o inp)
+            \/ \E r1 \in Refs : Start(<<r1>>, <<Zero, Val(r1)>>)                                       \* H1(digest)
+            \/ \E r1 \in Refs, r2 \in Refs : Start(<<r1, r2>>, <<Zero, Val(r1), Val(r2)>>)             \* H2(digest, digest)
+            \/ \E r1 \in Refs, a \in Inputs1 : Start(<<r1, <<a>>>>, <<Zero, Val(r1), a>>)              \* H2(digest, value)
+            \/ \E r1 \in Refs, a \in Inputs1 : Start(<<<<a>>, r1>>, <<Zero, a, Val(r1)>>)              \* H2(value, digest)
          /\ round' = 1 /\ UNCHANGED calls
 Round == /\ round >= 1 /\ round <= NRounds(Len(st))
          /\ st' = RoundStep(st, round)
          /\ round' = round + 1 /\ UNCHANGED <<calls, cur>>
 Finish == /\ round >= 1 /\ round = NRounds(Len(st)) + 1
-          /\ calls' = Append(calls, [in |-> cur, out |-> st[1]])
+          /\ calls' = Append(calls, [in |-> [i \in 1..Len(cur) |-> Val(cur[i])], wires |-> cur, out |-> st[1]])
           /\ round' = 0 /\ st' = <<>> /\ cur' = <<>>
 Next == Begin \/ Round \/ Finish
 Spec == Init /\ [][Next]_vars
